@@ -112,6 +112,11 @@ def _success(sol):
     return bool(sol[-1]['success'])
 
 
+def _inner_top(sol):
+    """the top-level info dict (the last one if the solver returned a list)"""
+    return sol if isinstance(sol, dict) else (sol[-1] if sol else {})
+
+
 def _inner(sol):
     """the info dict of the last stage actually run (ChainedNeqSys / ConditionalNeqSys nest them in 'intermediate_info')"""
     s = sol
@@ -229,7 +234,8 @@ class C08(Property):
         ('chempy/equilibria.py', 'EqSystem.get_neqsys'),
         ('chempy/equilibria.py', 'EqSystem._SymbolicSys_from_NumSys'),
         ('chempy/equilibria.py', 'EqSystem.solve'),
-        ('chempy/_eqsys.py', 'EqCalcResult'),
+        ('chempy/_eqsys.py', 'EqCalcResult.__init__'),
+        ('chempy/_eqsys.py', 'EqCalcResult.solve'),
         ('chempy/reactionsystem.py', 'ReactionSystem.upper_conc_bounds'),
         ('chempy/reactionsystem.py', 'ReactionSystem.per_substance_varied'),
         ('chempy/equilibria.py', 'EqSystem.roots'),
@@ -348,7 +354,7 @@ class C08(Property):
         n_solver = max(60, n // 5)
         n_craft = n - n_solver
         ops = ['ucb', 'sane', 'sane', 'sane', 'precip_stoich', 'dissolved', 'dissolved', 'fw', 'fw', 'bw', 'ptidx', 'nonprecip',
-               'quotient', 'rc_interval', 'rc_interval', 'bracket', 'residual', 'net_stoich', 'varied', 'varied', 'root_args']
+               'quotient', 'rc_interval', 'rc_interval', 'bracket', 'residual', 'net_stoich', 'varied', 'varied', 'root_args', 'quotient_rows', 'residual_act', 'residual_multi']
         for i in range(n_craft):
             cases.append(self._gen_crafted(rng, ops[i % len(ops)]))
         cases.extend(self._gen_solver(rng, n_solver))
@@ -475,6 +481,52 @@ class C08(Property):
             c['k'] = rj(k)
             if rng.random() < 0.3:       # history: the callback is created while the reaction has another constant, which is then changed in place
                 c['k_first'] = rj(k * F(rng.choice([1, 3, 1000]), rng.choice([1, 7, 1000])))
+            return c
+        if op == 'quotient_rows':       # 2-d concs: one state per row (float arrays in numpy: dyadic values, powers stay exact)
+            nrow, n = rng.randint(1, 4), rng.randint(1, 4)
+            concs = [[rj(F(2) ** rng.randint(-3, 3) * rng.choice([1, 1, 3])) for _ in range(n)] for _ in range(nrow)]
+            stoich = [rng.randint(-2, 3) for _ in range(max(0, n + rng.choice([0, 0, 0, 1, -1])))]
+            return {'op': 'quotient_rows', 'concs': concs, 'stoich': stoich}
+        if op == 'residual_act':
+            n = rng.randint(1, 4)
+            stoich = [rng.choice([-2, -1, -1, 1, 1, 2]) for _ in range(n)]
+            c0 = [F(rng.randint(1, 30), rng.choice([1, 2, 3, 7])) for _ in range(n)]
+            rc = F(rng.randint(-8, 8), rng.choice([1, 3, 8, 16]))
+            act = [rng.choice([0, 0, 1, -1, 2]) for _ in range(n)]
+            c = {'op': 'residual_act', 'stoich': stoich, 'c0': [rj(v) for v in c0], 'rc': rj(rc), 'act_exp': act}
+            cs = [a_ + s_ * rc for a_, s_ in zip(c0, stoich)]
+            if rng.random() < 0.5 and all(v != 0 for v in cs):
+                k = F(1)
+                for v, s_, e in zip(cs, stoich, act):
+                    k *= v ** (s_ + e)
+                c['K'], c['at_equilibrium'] = rj(k), True
+            else:
+                c['K'] = rj(F(rng.randint(1, 99), rng.randint(1, 99)))
+            if rng.random() < 0.06 and n >= 2:
+                c['c0'] = c['c0'] + [1]
+            return c
+        if op == 'residual_multi':
+            ns, nr = rng.randint(1, 5), rng.randint(1, 3)
+            stoich = [[rng.choice([-2, -1, 0, 0, 1, 1, 2]) for _ in range(nr)] for _ in range(ns)]
+            c0 = [F(rng.randint(0 if rng.random() < 0.1 else 1, 30), rng.choice([1, 2, 3, 7])) for _ in range(ns)]
+            rc = [F(rng.randint(-6, 6), rng.choice([1, 3, 8, 16])) for _ in range(nr)]
+            c = {'op': 'residual_multi', 'stoich': stoich, 'c0': [rj(v) for v in c0], 'rc': [rj(v) for v in rc]}
+            cs = [a_ + sum(n_ * r_ for n_, r_ in zip(row, rc)) for a_, row in zip(c0, stoich)]
+            if rng.random() < 0.5 and all(v != 0 for v in cs):
+                ks = []
+                for r_ in range(nr):
+                    k = F(1)
+                    for v, row in zip(cs, stoich):
+                        k *= v ** row[r_]
+                    ks.append(k)
+                c['K'], c['at_equilibrium'] = [rj(k) for k in ks], True
+            else:
+                c['K'] = [rj(F(rng.randint(1, 99), rng.randint(1, 99))) for _ in range(nr)]
+            u = rng.random()
+            if u < 0.04 and ns >= 2:
+                c['c0'] = c['c0'] + [1, 1]
+            elif u < 0.08 and nr >= 2:
+                c['rc'] = c['rc'] + [1, 1]
             return c
         if op == 'root_args':
             ns = rng.randint(2, 5)
@@ -739,6 +791,35 @@ class C08(Property):
                           'init1': mk(), 'init2': mk(), 'entry': ['root', 'root', '_solve'][j % 3],
                           'variant': rng.choice(['default', 'log', 'loglin']), 'guess': rng.choice(['solution1', 'solution1', 'init1']),
                           'x0_as': rng.choice(['array', 'dict'])})
+        # bookkeeping of EqCalcResult.solve / _solve: failures must be recorded as failures (and warned about), list-valued solver info
+        for j in range(max(8, n // 60)):
+            sel = ['water'] + rng.sample(ACIDBASE, rng.randint(1, 3))
+            subs = []
+            for nm in sel:
+                for s_ in list(POOL[nm][0]) + list(POOL[nm][1]):
+                    if s_ not in subs:
+                        subs.append(s_)
+            rng.shuffle(subs)
+            cand = [s_ for s_ in subs if s_ != 'H2O']
+            cases.append({'kind': 'calc', 'eqs': sel, 'logK': [round(POOL[nm][2] + rng.uniform(-1.5, 1.5), 6) for nm in sel], 'subs': subs,
+                          'init': [55.5 if s_ == 'H2O' else float('%.6g' % 10 ** rng.uniform(-6, -1)) for s_ in subs],
+                          'varied': [[rng.choice(cand), sorted(float('%.6g' % 10 ** rng.uniform(-5, -1)) for _ in range(3))]] if j % 2 else [],
+                          'chain': ['lin', 'lin', 'default', 'square'][j % 4], 'info_as': ['dict', 'list'][(j // 2) % 2]})
+        # roots(..., plot_kwargs=...): the plotting driver returns the same numbers; its refusal branch
+        for j in range(max(3, n // 250)):
+            sel = ['water', rng.choice(ACIDBASE)]
+            subs = []
+            for nm in sel:
+                for s_ in list(POOL[nm][0]) + list(POOL[nm][1]):
+                    if s_ not in subs:
+                        subs.append(s_)
+            rng.shuffle(subs)
+            cand = [s_ for s_ in subs if s_ != 'H2O']
+            cases.append({'kind': 'roots_plot', 'eqs': sel, 'logK': [round(POOL[nm][2] + rng.uniform(-1, 1), 6) for nm in sel], 'subs': subs,
+                          'init': [55.5 if s_ == 'H2O' else float('%.6g' % 10 ** rng.uniform(-5, -2)) for s_ in subs],
+                          'varied': [rng.choice(cand), sorted(float('%.6g' % 10 ** rng.uniform(-5, -2)) for _ in range(3))],
+                          'plot_kwargs': [{}, {'latex_names': True, 'conc_unit_str': 'mM'}, {'substances': [cand[0]]},
+                                          {'substances': [cand[0]], 'indices': [0]}][j % 4]})
         # histories on ONE EqSystem object: constants changed in place between solves (Ksp / K scans)
         for j in range(max(15, n // 30)):
             if j % 3 != 2:
@@ -883,6 +964,25 @@ class C08(Property):
                     return str(bool(fw(obj(c['x']), None)))
                 if op == 'varied':
                     return self._varied_impl(c)
+                if op == 'quotient_rows':
+                    a2 = np.array([[float(_fr(v)) for v in row] for row in c['concs']], dtype=float).reshape(len(c['concs']), -1)
+                    if a2.shape[0] == 0:
+                        a2 = np.zeros((0, len(c['stoich'])))
+                    r_ = equilibrium_quotient(a2, c['stoich'])
+                    return show_rat_list(F(float(v)) for v in np.atleast_1d(r_))
+                if op == 'residual_act':
+                    e = c['act_exp']
+
+                    def act(cc):
+                        g = F(1)
+                        for v, n_ in zip(cc, e):
+                            g *= F(v) ** n_
+                        return g
+                    return show_rat(_eq.equilibrium_residual(_fr(c['rc']), obj(c['c0']), np.array(c['stoich'], dtype=object), _fr(c['K']), act))
+                if op == 'residual_multi':
+                    st = np.array(c['stoich'], dtype=object).reshape(len(c['stoich']), -1)
+                    r_ = _eq.equilibrium_residual(obj(c['rc']), obj(c['c0']), st, obj(c['K']))
+                    return show_rat_list(np.atleast_1d(r_))
                 if op == 'root_args':
                     g, p_ = self._captured_root_args(c)
                     return '%s;%s' % (show_rat_list(F(float(v)) for v in g), show_rat_list(F(float(v)) for v in p_))
@@ -947,6 +1047,11 @@ class C08(Property):
                                ','.join(show_rat_list(F(float(v)) for v in row) for row in rows))
 
     def same(self, c, io, mo):
+        if c['op'] in ('quotient_rows', 'residual_multi') and io.startswith('[') and mo.startswith('['):
+            # numpy turns these into floats (float array / Fraction ** ndarray): compared to 1e-12 of the scale of the terms
+            a, b = parse_rat_list(io), parse_rat_list(mo)
+            scale = max([1.0] + [abs(float(_fr(v))) for v in c.get('K', [])]) if c['op'] == 'residual_multi' else 0.0
+            return len(a) == len(b) and all(close(float(x), y, 1e-12, 1e-12 * scale) for x, y in zip(a, b))
         if c['op'] == 'ucb' and io.startswith('[') and mo.startswith('['):
             a, b = io[1:-1].split(','), mo[1:-1].split(',')
             if io == '[]' or mo == '[]':
@@ -1067,6 +1172,56 @@ class C08(Property):
                 return 'lower end %s of the bracket is not the largest feasible one' % lo
             if any(s < 0 for s in stoich) and all(a + s * (up + F(1, 10 ** 6)) >= 0 for a, s in zip(c0, stoich)):
                 return 'upper end %s of the bracket is not the largest feasible one' % up
+        elif op == 'quotient_rows':
+            st = c['stoich']
+            rows = [_frl(r) for r in c['concs']]
+            if not rows or any(v == 0 for r in rows for v in r):
+                return None
+            from chempy.chemistry import equilibrium_quotient
+            got = np.atleast_1d(equilibrium_quotient(np.array([[float(v) for v in r] for r in rows]), st))
+            for i, r in enumerate(rows):
+                q = F(1)
+                for v, n_ in zip(r, st):
+                    q *= v ** n_
+                if not close(got[i], q, 1e-12):
+                    return 'equilibrium_quotient on a 2-d array: row %d gives %r, the product of c^nu is %s' % (i, got[i], q)
+        elif op in ('residual_act', 'residual_multi'):
+            c0 = _frl(c['c0'])
+            if op == 'residual_act':
+                st, rc, K, e = c['stoich'], _fr(c['rc']), _fr(c['K']), c['act_exp']
+                if len(c0) != len(st):
+                    return None
+                cs = [a_ + s_ * rc for a_, s_ in zip(c0, st)]
+                if any(v == 0 for v in cs):
+                    return None
+                q = F(1)
+                for v, s_, n_ in zip(cs, st, e):
+                    q *= v ** (s_ + n_)
+
+                def act(cc):
+                    g = F(1)
+                    for v, n_ in zip(cc, e):
+                        g *= F(v) ** n_
+                    return g
+                got = _eq.equilibrium_residual(rc, obj(c0), np.array(st, dtype=object), K, act)
+                if (got == 0) != (q == K):
+                    return 'equilibrium_residual with an activity product = %s although Q*gamma = %s, K = %s' % (got, q, K)
+            else:
+                st, rc, K = c['stoich'], _frl(c['rc']), _frl(c['K'])
+                nr = len(rc)
+                if len(c0) != len(st) or len(K) != nr or any(len(r) != nr for r in st):
+                    return None
+                cs = [a_ + sum(n_ * r_ for n_, r_ in zip(row, rc)) for a_, row in zip(c0, st)]
+                if any(v == 0 for v in cs):
+                    return None
+                got = np.atleast_1d(_eq.equilibrium_residual(obj(rc), obj(c0), np.array(st, dtype=object).reshape(len(st), -1), obj(K)))
+                for r_ in range(nr):
+                    q = F(1)
+                    for v, row in zip(cs, st):
+                        q *= v ** row[r_]
+                    if (abs(float(got[r_])) <= 1e-12 * max(abs(float(q)), abs(float(K[r_])), 1e-300)) != (q == K[r_]) and \
+                            not (q != K[r_] and abs(float(q / K[r_]) - 1) < 1e-9):
+                        return 'equilibrium_residual (2-d stoich): entry %d is %s although Q_%d = %s, K_%d = %s' % (r_, got[r_], r_, q, r_, K[r_])
         elif op == 'root_args':
             g, p_ = self._captured_root_args(c)
             init, consts = [float(_fr(v)) for v in c['init']], [float(_fr(v)) for v in c['consts']]
@@ -1229,6 +1384,105 @@ class C08(Property):
             return self._oracle_history(c)
         if kind == 'warm':
             return self._oracle_warm(c)
+        if kind == 'calc':
+            return self._oracle_calc(c)
+        if kind == 'roots_plot':
+            return self._oracle_roots_plot(c)
+        return None
+
+    def _oracle_calc(self, c):
+        """EqCalcResult.solve / EqSystem._solve bookkeeping: for every grid point the recorded success / sane / conc are those of the
+        underlying _solve call (never success=True for a run the solver flagged as failed, also when the solver info is a list of stage
+        infos), a failed root finding is warned about, and every recorded success & sane point is genuine"""
+        import numpy as np
+        from itertools import product
+        from chempy._eqsys import EqCalcResult
+        es = self._build_pool({'kind': 'homog', 'eqs': c['eqs'], 'logK': c['logK'], 'subs': c['subs']})
+        base = dict(zip(c['subs'], c['init']))
+        levels = OrderedDict((k, list(v)) for k, v in c['varied'])
+        kw = {} if c['chain'] == 'default' else {'NumSys': _variant_kwargs(c['chain'])['NumSys']}
+        log = []
+
+        class ListInfo:
+            """a solver object whose info is a LIST of stage infos (EqCalcResult must then read the last one)"""
+            def __init__(self, inner):
+                self.inner = inner
+
+            def solve(self, x0, params, **k):
+                x, info = self.inner.solve(x0, params, **k)
+                return x, [dict(success=not info['success'], nfev=-1), info]
+        if c['info_as'] == 'list':
+            kw2 = dict(kw)
+            kw2['neqsys'] = ListInfo(es.get_neqsys('chained_conditional', NumSys=kw.get('NumSys', _variant_kwargs('loglin')['NumSys'])))
+        else:
+            kw2 = kw
+        res = EqCalcResult(es, base, levels or None)
+        with warnings.catch_warnings(record=True) as wlist:
+            warnings.simplefilter('always')
+            res.solve(**kw2)
+        msgs = [str(w.message) for w in wlist]
+        n_fail_warn = sum(1 for m in msgs if 'indicated as failed by solver' in m)
+        keys = list(res.varied_keys)
+        n_fail = 0
+        for index in product(*[range(len(levels[k])) for k in keys]):
+            doc = dict(base)
+            for a, k in enumerate(keys):
+                doc[k] = levels[k][index[a]]
+            c0 = es.as_per_substance_array(doc)
+            with warnings.catch_warnings():
+                warnings.simplefilter('ignore')
+                x, sol, sane = es._solve(c0, **kw)           # the reference call (deterministic)
+            succ = _success(sol)
+            n_fail += (not succ)
+            if bool(res.success[index]) != succ or bool(res.sane[index]) != bool(sane):
+                return ('EqCalcResult.solve(%s, solver info as %s): grid point %s records success=%s sane=%s but _solve gives success=%s sane=%s' % (
+                    c['chain'], c['info_as'], list(index), bool(res.success[index]), bool(res.sane[index]), succ, bool(sane)))
+            if not np.allclose(res.conc[index], x, rtol=1e-12, atol=0, equal_nan=True):
+                return 'EqCalcResult.solve: grid point %s stores %r, _solve returns %r' % (list(index), res.conc[index].tolist(), list(x))
+            if c['info_as'] == 'dict' and int(res.nfev[index]) != int(_inner_top(sol).get('nfev', res.nfev[index])):
+                return 'EqCalcResult.solve: nfev recorded %r, solver reported %r' % (int(res.nfev[index]), _inner_top(sol).get('nfev'))
+            if succ and sane:
+                bad = self._genuine(es, c0, x, tol=_solver_tol('default'))
+                if bad and c['chain'] not in ('lin', 'square'):
+                    return 'EqCalcResult.solve(%s): grid point %s records success and sane but %s' % (c['chain'], list(index), bad[1])
+        if n_fail_warn != n_fail:
+            return '%d root findings failed but %d warnings "Root-finding indicated as failed by solver." were issued' % (n_fail, n_fail_warn)
+        return None
+
+    def _oracle_roots_plot(self, c):
+        """roots(..., plot_kwargs=...) returns the numbers of roots(...) (plotting must not change them), every success & sane point is
+        genuine, and contradictory plot arguments are refused with ValueError"""
+        import io, contextlib
+        import numpy as np
+        import matplotlib
+        matplotlib.use('Agg')
+        import matplotlib.pyplot as plt
+        es = self._build_pool({'kind': 'homog', 'eqs': c['eqs'], 'logK': c['logK'], 'subs': c['subs']})
+        base = dict(zip(c['subs'], c['init']))
+        k, data = c['varied']
+        pk = {kk: (list(v) if isinstance(v, list) else v) for kk, v in c['plot_kwargs'].items()}
+        refuse = 'substances' in pk and 'indices' in pk
+        try:
+            with contextlib.redirect_stdout(io.StringIO()):
+                xs, extra, sanity = es.roots(base, np.array(data), k, plot_kwargs=pk)
+        except ValueError as e:
+            plt.close('all')
+            return None if refuse else 'roots(plot_kwargs=%s) raised ValueError: %s' % (c['plot_kwargs'], str(e)[:100])
+        finally:
+            plt.close('all')
+        if refuse:
+            return 'roots(plot_kwargs with both substances and indices) was accepted'
+        xs0, infos0, sanity0 = es.roots(base, np.array(data), k)
+        if not np.allclose(xs, xs0, rtol=1e-12, atol=0, equal_nan=True) or list(sanity) != list(sanity0):
+            return 'roots with plot_kwargs=%s returns other numbers than roots without plotting' % (c['plot_kwargs'],)
+        infos = extra['info'] if isinstance(extra, dict) else extra
+        for i, val in enumerate(data):
+            if _success(infos[i]) != _success(infos0[i]):
+                return 'roots with plotting reports success=%s at point %d, without plotting %s' % (_success(infos[i]), i, _success(infos0[i]))
+            if _success(infos[i]) and sanity[i]:
+                bad = self._genuine(es, es.as_per_substance_array(dict(base, **{k: val})), xs[i])
+                if bad:
+                    return 'roots(plot_kwargs=%s): point %d reports success and a sane result but %s' % (c['plot_kwargs'], i, bad[1])
         return None
 
     def _oracle_warm(self, c):
@@ -1510,6 +1764,10 @@ class C08(Property):
             return 'history:%s:%s' % (c['system']['kind'], c['variant'])
         if k == 'warm':
             return 'warm:%s:%s:%s:%s' % (c['entry'], c['variant'], c['guess'], c['x0_as'])
+        if k == 'calc':
+            return 'calc:%s:%s:%d-varied' % (c['chain'], c['info_as'], len(c['varied']))
+        if k == 'roots_plot':
+            return 'roots_plot:%s' % ('+'.join(sorted(c['plot_kwargs'])) or 'plain')
         return 'solve:' + str(k)
 
     def nontrivial(self, c):
